@@ -431,7 +431,9 @@ CHECKS = {
         parts=[dict(name="random", run="TestC04Random", checks=dict(quick=2500, thorough=50000), shards=dict(quick=4, thorough=16)),
                # free-running: one writer goroutine per target + staggered subscribers on the real scheduler inside a synctest bubble,
                # no gates; convergence / single sync / no invention at the final quiescent point (synctest.Wait)
-               dict(name="stress", run="TestC04Stress", rapid=False, args=dict(quick=["-c04.stress=400"], thorough=["-c04.stress=6000"]), shards=dict(quick=1, thorough=8))],
+               dict(name="stress", run="TestC04Stress", rapid=False, args=dict(quick=["-c04.stress=400"], thorough=["-c04.stress=6000"]), shards=dict(quick=1, thorough=8)),
+               # several writers updating their own leaves at the same instant against an idle subscriber, convergence judged at the quiescent point after every round
+               dict(name="volley", run="TestC04Volley", rapid=False, args=dict(quick=["-c04.volleys=10", "-c04.volleyrounds=1500"], thorough=["-c04.volleys=60", "-c04.volleyrounds=4000"]), shards=dict(quick=3, thorough=8))],
     ),
     "C05": dict(
         engine="subprop",
@@ -868,6 +870,9 @@ CHECKS = {
             # callbacks with state and a call protocol: conditions of DeleteConditional/WalkDeleted that are not predicates of the value (budget, one-shot permit, skip-k, alternate,
             # once per value, state carried over two deletes); what the condition answered in the call against what the delete removed/returned/handed to f; recording/stopping visitors
             dict(name="callback", run="TestC09Callback", checks=dict(quick=2000, thorough=30000), shards=dict(quick=1, thorough=8)),
+            # wide nodes and high-water marks: nodes with 100..5000 children (around 127/128/129, 255/256/257, 511/512/513, 1000/1024, 4096+) at the root and at depth 1-2, built up,
+            # torn down by ONE glob/subtree/conditional delete (all, all but one, three quarters, to a quarter of the peak +-1) or by literal deletes across the same thresholds, refilled, torn down again
+            dict(name="wide", run="TestC09Wide", checks=dict(quick=200, thorough=3000), shards=dict(quick=1, thorough=8)),
         ],
     ),
 }
@@ -1080,12 +1085,23 @@ EXT2 = {
                             "every leaf gone matched the path; the values of the leaves gone are the yes-answers (so the matching leaves that stayed are the no-answers); predicates remove what the model predicts; "
                             "the model then drops exactly the leaves gone and the full observation set is compared after every op (pruning), 'readd' ops Add at, above or below a leaf the last delete removed. "
                             "Visitors of Query/Walk/WalkSorted record and may stop at their k-th invocation: once per reported leaf, never again after their error, the handle they got reads the reported value "
-                            "after the visit. The exhaustive, random, rich and alias parts also count: their (predicate) conditions must be consulted once per matching leaf."),
-                technique="; conditional deletes under stateful conditions judged by consistency between the condition's answers and the delete's effects",
+                            "after the visit. The exhaustive, random, rich and alias parts also count: their (predicate) conditions must be consulted once per matching leaf."
+                            " Part wide (wide nodes and high-water marks): 1-2 nodes at the root / depth 1 / depth 2 are filled to 100, 127/128/129, 200, 255/256/257, 511/512/513, 1000/1024/1025, 2048-5000 "
+                            "children (three name styles; children are leaves, branches {state}, {state,cfg} or a 1:3 mix), then 1-9 BULK steps: ONE Delete/DeleteConditional/WalkDeleted call over the node "
+                            "(subtree path, glob last / in the middle / above the node, globs only, past the leaves) whose condition removes all, all but one, three quarters, nine tenths, or everything "
+                            "above / below a threshold placed at a quarter of the node's peak (-1, +0, +1, +2), half, 64, 127, 128; runs of literal deletes (ascending, descending, stride 3; child or leaf path) "
+                            "across the same thresholds with a full comparison whenever the child count reaches one; refills (same or other width, other values), a second teardown; Add at the position of the "
+                            "emptied node / of a child / through a leaf. Same prefix-free map model, indexed so that every step costs O(leaves): after every step Walk, WalkSorted (order), GetLeafValue of every "
+                            "leaf, Get/IsBranch/Children() snapshot of each node, and up to 12 glob queries around each node (glob ranging over the wide node last, in the middle, above it) are compared; per "
+                            "delete call: returned paths / values handed to f == what a query for the same path reports under the condition, the condition consulted once per matching leaf, every removed leaf "
+                            "gone, every emptied branch pruned (Get nil), the query for the same path reports what is left."),
+                technique="; conditional deletes under stateful conditions judged by consistency between the condition's answers and the delete's effects; nodes with 100-5000 children built up and torn down across capacity steps",
                 rule=(" alias: cases are 1-40 ops with caller-owned buffers; non-trivial = a path slice obtained from the tree was kept across a later op and an argument buffer was re-used or overwritten."
                       " rich (values): also non-trivial = a leaf holding a tree-related value (kinds 7-13) was overwritten, deleted, or an Add went through it."
                       " callback: cases are 1-8 adds followed by 1-24 ops (add, readd, Delete, DeleteConditional, WalkDeleted, Query, Walk, WalkSorted); non-trivial = a conditional delete whose condition is "
-                      "not a predicate of the value accepted at least one leaf.")),
+                      "not a predicate of the value accepted at least one leaf."
+                      " wide: cases are 1-2 node descriptions and 2-11 bulk steps; non-trivial = ONE delete call removed more than half of the children of a node that had >=100 children at that moment "
+                      "(labels record the peak class, the depth of the wide node, all / all-but-one / three-quarters removals, crossings of a quarter of the peak, refills and second teardowns).")),
     "C11": dict(level_text=(" Further: backlogs of 1000-9000 items worked down to fractions of their peak, a hot item inserted up to 70000 extra times, items of six kinds incl. the nil interface; stress: "
                             "Close from several goroutines at once and Close under fire (every insertion that returned before Close was called is delivered). Part window: the consumer parked between "
                             "its emptiness check and its select while inserts complete, the queue is closed and another goroutine holds the queue's mutex when it resumes; 24 repeats per case. "
@@ -1232,6 +1248,10 @@ EXT3 = {
                             "index returned by ToStrings (spare capacity included) are overwritten before the same input is converted again, and the second result must equal the first.")),
     "C03": dict(level_text=(" Further (also in the C02 profile): a structured 'big fan-out' shape, one case in about two hundred: one notification writes 300-4100 sibling leaves, a later one rewrites "
                             "a few, then a glob / subtree delete whose timestamp lies between the two removes more than a thousand leaves at once and must leave and not announce the newer ones.")),
+    "C04": dict(level_text=(" Further: STREAM clients that half-close their sending side (at once or later); the caller going away while the subscription's own walk is inside a queue insertion. "
+                            "Part volley (free-running inside a synctest bubble): 2-6 writers update their own leaves at the same instant against an idle STREAM subscriber, 1500 rounds per workload; "
+                            "at the quiescent point after every round the subscriber must hold that round's value of every leaf."),
+                rule=" volley: a case is one workload; non-trivial = >=2 writers and >=100 rounds completed."),
     "C05": dict(level_text=(" Further: paths of one request that read the same once their index strings are joined with '/' (a/b vs a, b); requests dressed with the fields the server does not "
                             "implement (qos, encoding, per-subscription mode / sample_interval / heartbeat / suppress_redundant, drawn per subscription; also in C04/C07/C08/C14). Part stress "
                             "(free-running, real scheduler inside a synctest bubble): 1-4 client goroutines issue ONCE calls / POLL rounds back to back while one writer goroutine per hot leaf keeps "
